@@ -612,20 +612,15 @@ bool RegularExpression::matches(const XMLCh* const expression, const XMLSize_t s
 
             for (matchStart=context.fStart; matchStart<=limit; matchStart++) {
 
-                XMLCh ch = expression[matchStart];
-                if (RegxUtil::isEOLChar(ch)) {
-                    previousIsEOL = true;
+                // a match can only begin at the start of a line, and the
+                // line may be empty (the offset is then on its terminator)
+                if (previousIsEOL) {
+                    if (0 <= (matchEnd = match(&context, fOperations,
+                                               matchStart)))
+                        break;
                 }
-                else {
 
-                    if (previousIsEOL) {
-                        if (0 <= (matchEnd = match(&context, fOperations,
-                                                   matchStart)))
-                            break;
-                    }
-
-                    previousIsEOL = false;
-                }
+                previousIsEOL = RegxUtil::isEOLChar(expression[matchStart]);
             }
         }
     }
